@@ -61,11 +61,11 @@ static void emitVF(const char * solver, const char * rep, const PomdpTables & pt
     std::printf("#stat solver:%s 1\n#stat rep:%s 1\n#stat vectors_last:%zu 1\n", solver, rep, std::min<size_t>(last.size(), 9));
 }
 
-// findVerticesNaive on a parsimonious list (the final IncrementalPruning list): C02 verts <S> <n> {S values} | <k> {S coordinates, value}
-static void emitVerts(const PomdpTables & pt, const P::VList & vl) {
+// findVerticesNaive on a parsimonious list (the final IncrementalPruning list): C02 verts <dyadic> <S> <n> {S values} | <k> {S coordinates, value}
+static void emitVerts(const PomdpTables & pt, const P::VList & vl, bool dyadic = true) {
     if (pt.S < 2 || vl.size() < 2 || vl.size() > 8) return;
     auto vs = AIToolbox::findVerticesNaive(vl, P::unwrap);
-    Line l; l << "C02" << "verts" << pt.S << (size_t)vl.size();
+    Line l; l << "C02" << "verts" << dyadic << pt.S << (size_t)vl.size();
     for (const auto & e : vl) for (size_t s = 0; s < pt.S; ++s) l << (double)e.values[s];
     l << "|" << (size_t)vs.first.size();
     for (size_t i = 0; i < vs.first.size(); ++i) { for (size_t s = 0; s < pt.S; ++s) l << (double)vs.first[i][s]; l << vs.second[i]; }
@@ -89,7 +89,7 @@ static double trueMaxR(const PomdpTables & pt) { return pt.R.maxCoeff(); }
 static void runAll(const PomdpTables & pt, unsigned h, bool dyadic, Rng & rng, int which, int nrandom) {
     Dense dense = toDense(pt);
     if (which & 1) emitVF<P::IncrementalPruning>("IncrementalPruning", "dense", pt, dense, h, dyadic, rng, nrandom);
-    if (which & 1) { P::IncrementalPruning ip(h, 0.0); auto [var, vf] = ip(dense); (void)var; emitVerts(pt, vf.back()); }
+    if (which & 1) { P::IncrementalPruning ip(h, 0.0); auto [var, vf] = ip(dense); (void)var; emitVerts(pt, vf.back(), dyadic); }
     if (which & 2) emitVF<P::Witness>("Witness", "dense", pt, dense, h, dyadic, rng, nrandom);
     if (which & 4) emitVF<P::LinearSupport>("LinearSupport", "dense", pt, dense, h, dyadic, rng, nrandom);
     if (which & 8) {
@@ -115,6 +115,15 @@ static void runRTBSS(const PomdpTables & pt, unsigned h, bool dyadic, Rng & rng,
         }
         emitRTBSS("dense", pt, dense, h, maxR, b, dyadic);
         if (sparseToo) { Sparse sparse(dense); emitRTBSS("sparse", pt, sparse, h, maxR, b, dyadic); }
+        if (i == 0) {
+            // the same instance with every reward shifted below zero and maxR = the (negative) largest reward, exactly as the header documents
+            PomdpTables neg = pt;
+            const double shift = std::ceil(std::max(mr, 0.0)) + 0.5;
+            neg.R.array() -= shift;
+            Dense dneg = toDense(neg);
+            emitRTBSS("dense", neg, dneg, h, trueMaxR(neg), b, dyadic);
+            if (sparseToo) { Sparse sneg(dneg); emitRTBSS("sparse", neg, sneg, h, trueMaxR(neg), b, dyadic); }
+        }
     }
 }
 
